@@ -143,6 +143,27 @@ Theorem loop_clause prof f invert c b xs e :
     else XOk xs e1).
 Proof. reflexivity. Qed.
 
+(** break and continue never escape the loop they belong to: whatever happens inside (at any depth of
+    nested ifs and blocks), a loop entered with a normal flag ends with a normal flag, or with a
+    pending return; the flag that an inner break/continue raised was consumed by *this* loop *)
+Theorem loop_exit_flag prof : forall f invert c b xs e xs' e',
+  xflag xs = Normal -> exec_loop prof f invert c b xs e = XOk xs' e' ->
+  xflag xs' = Normal \/ xflag xs' = Returning.
+Proof.
+  induction f as [|f IH]; intros invert c b xs e xs' e' Hn H; [discriminate|].
+  rewrite loop_clause in H. unfold after_tick in H. destruct (tick e) as [et|]; [|discriminate].
+  destruct (produce_expr prof f c et) as [cv e1| | | | |]; cbn [xbind] in H; try discriminate.
+  destruct (xorb invert (is_truthy cv)).
+  - destruct (exec_block prof f b xs (push_scope e1)) as [xs1 e3| | | | |]; cbn [xbind] in H; try discriminate.
+    destruct (lift_env (pop_scope prof e3) e3) as [e4 e4'| | | | |]; cbn [xbind] in H; try discriminate.
+    destruct (xflag xs1) eqn:Ef.
+    + eapply IH; eauto.
+    + injection H as <- _. left. reflexivity.
+    + eapply IH; [|exact H]. reflexivity.
+    + injection H as <- _. right. exact Ef.
+  - injection H as <- _. left. exact Hn.
+Qed.
+
 Theorem while_until_clause prof f c b xs e :
   exec_stmt prof (S f) (SWhile c b) xs e = after_tick e (exec_loop prof f false c b xs) /\
   exec_stmt prof (S f) (SUntil c b) xs e = after_tick e (exec_loop prof f true c b xs).
